@@ -190,6 +190,10 @@ class ModuleRaises(Unsupported):
         self.module, self.exc = module, exc
 
 
+
+class CounterDict(dict):
+    """collections.Counter over values that may be symbolic: a dict whose + and - keep only positive counts (Interp.binop)"""
+
 class SymDict:
     """{**base, k: v, ...} with a symbolic base"""
     def __init__(self, base, items):
@@ -1085,6 +1089,14 @@ class Interp:
             p = self.parity(a)
             if p is not None:
                 return p
+        if isinstance(a, CounterDict) and isinstance(b, CounterDict) and t in (ast.Add, ast.Sub):
+            # Counter arithmetic adds (subtracts) the counts key by key and KEEPS ONLY THE POSITIVE ones
+            res = CounterDict()
+            for k_ in list(a) + [k2 for k2 in b if k2 not in a]:
+                v_ = self.binop(op, a.get(k_, 0), b.get(k_, 0))
+                if self.truth(self.compare(">", v_, 0)):
+                    res[k_] = v_
+            return res
         if t is ast.BitOr and isinstance(a, dict) and isinstance(b, dict):
             return {**a, **b}
         if t in (ast.FloorDiv, ast.Mod, ast.Div) and is_sym(b) and sym.kind(b) in ("int", "bool") and self._single_cellvar(b) is not None:
@@ -2054,6 +2066,14 @@ class Interp:
             if isinstance(fn, Closure):
                 return self.type_hints(fn)
             raise Unsupported("get_type_hints of non-function")
+        if d == "collections.Counter":
+            src = args[0] if args else {}
+            if isinstance(src, dict):
+                return CounterDict(src)
+            out_ = CounterDict()
+            for it_ in self.iterate(src):
+                out_[it_] = self.binop(ast.Add(), out_.get(it_, 0), 1)
+            return out_
         if d == "collections.defaultdict":
             import collections
             fac = args[0] if args else None
